@@ -38,7 +38,8 @@ class Opts:
 
 
 def S(W, d, o, i):
-    return W.source(d.srcs[i], o.fl[i] if W.mode == "a" else "iter")
+    # a plain list is not instrumented: use it on both sides so that use numbers stay aligned
+    return W.source(d.srcs[i], o.fl[i] if (W.mode == "a" or o.fl[i] == "list") else "iter")
 
 
 def F(W, o, name, impl):
@@ -363,7 +364,9 @@ def _kw_key(W, d, o):
 
 
 def _reduce_args(W, d, o):
-    return (d.initial,) if d.b[0] else ()
+    if not d.b[0]:
+        return ()
+    return (None,) if d.b[2] else (d.initial,)  # None is a real initial value
 
 
 _rega(Agg("all", lambda W, d, o: A.all(S(W, d, o, 0)), lambda W, d, o: builtins.all(S(W, d, o, 0))))
